@@ -4,7 +4,7 @@ from __future__ import annotations
 import hashlib
 import random
 
-from vf.core import SECTOR
+from vf.core import SECTOR, disturb_handles
 from vf.monitors import call
 
 
@@ -40,8 +40,13 @@ def gen_requests(
     exhaustive_sectors: int = 24,
     pair_cap: int = 400,
     extra=(),
+    long_reads: int = 2,
+    long_cap: int = 24 << 20,
 ) -> tuple[list[tuple[int, int]], bool]:
-    """-> (requests [(offset, length)], exhaustive?)"""
+    """-> (requests [(offset, length)], exhaustive?)
+
+    Besides boundary pairs and random requests up to `max_len`, `long_reads` requests far longer than any unit or
+    buffer (whole disk when it is at most `long_cap`, otherwise windows of up to `long_cap` bytes)."""
     nsec = -(-size // SECTOR)
     reqs: list[tuple[int, int]] = []
     if nsec <= exhaustive_sectors:
@@ -74,6 +79,16 @@ def gen_requests(
         else:
             ln = rng.randrange(1, 4 * SECTOR)
         reqs.append((o, ln))
+    for j in range(long_reads):
+        if size <= long_cap:
+            reqs.append((0, size) if j == 0 else (rng.randrange(0, size), size))
+        else:
+            ln = rng.randrange(long_cap // 4, long_cap + 1)
+            o = rng.randrange(0, size - ln + 1)
+            if units and rng.random() < 0.5:
+                o -= o % units[0]  # from a unit boundary minus/plus a little
+                o = max(0, o + rng.choice([0, -SECTOR, SECTOR, 1]))
+            reqs.append((o, min(ln, size - o)))
     return reqs, False
 
 
@@ -161,9 +176,16 @@ def continuation_reads(stream, model, reqs, rng, res: dict, mech: str, n: int = 
         # (that is where the backing handle was left)
         nxt = a + ln if rng.random() < 0.5 else min(-(-(a + ln) // align) * align, size - 1)
         steps = [("seek+read", a, ln), ("seek+read", b, lb), ("seek+read", nxt, m)]
-        if rng.random() < 0.4 and nxt == a + ln:
+        r = rng.random()
+        if r < 0.3 and nxt == a + ln:
             steps = [("seek+read", a, ln), ("peek-elsewhere", b, lb), ("read-on", a + ln, m)]
+        elif r < 0.6:
+            # somebody else uses the same file object(s) in between (the caller, a second disk object on the same handle)
+            steps = [("seek+read", a, ln), ("others-move-the-handles", 0, 0), ("seek+read", nxt, m)]
         for kind, off, k in steps:
+            if kind == "others-move-the-handles":
+                cnt["handle_disturbances"] = cnt.get("handle_disturbances", 0) + disturb_handles(rng)
+                continue
             exp = model.expected(off, k)
             if kind == "seek+read":
                 o = call(lambda: (stream.seek(off), stream.read(k))[1])
